@@ -35,6 +35,9 @@ var c31DefNames = []string{"S", "Sec", "T", "Min", "H", "D", "W", "Y"}
 var c31Noise = []string{"", "", "", "x", " ", "a1", "7", "Se", "Mi", "M", "1", "-", "+", "0", "S", "T", "_", "1D"}
 
 func c31Mult(r *rng.Rand) string {
+	if r.Chance(35) {
+		return "1" // the unit candles (1W is the only W covered by the window theorem)
+	}
 	switch k := r.Intn(20); {
 	case k < 12:
 		return strconv.Itoa(1 + r.Intn(120))
@@ -82,6 +85,13 @@ func c31TFStr(r *rng.Rand) string {
 
 func c31Gen(r *rng.Rand, i int, tier string) interface{} {
 	in := c31In{Str: c31CandleStr(r), Zone: c31Zones[r.Intn(len(c31Zones))], TFStr: c31TFStr(r)}
+	if r.Chance(25) {
+		in.Zone = []string{"UTC", "fixed:0"}[r.Intn(2)]
+	}
+	forceBoundary := false
+	if r.Chance(8) { // the one-week candle in UTC around new year: the whole domain of the W window theorem
+		in.Str, in.Zone, forceBoundary = "1W", []string{"UTC", "fixed:0"}[r.Intn(2)], true
+	}
 	loc, err := tzd.Load(in.Zone)
 	if err != nil {
 		loc, in.Zone = time.UTC, "UTC"
@@ -94,7 +104,17 @@ func c31Gen(r *rng.Rand, i int, tier string) interface{} {
 	small := []int64{0, 1, -1, 1e9, -1e9, 1800e9, 3600e9, -3600e9, 3600e9 - 1, 86400e9, -86400e9, 86400e9 - 1, 7 * 86400e9, 30 * 60e9}
 	pick := func() time.Duration { return time.Duration(small[r.Intn(len(small))]) }
 	var t time.Time
-	switch k := r.Intn(12); {
+	kk := r.Intn(15)
+	if forceBoundary {
+		kk = 12
+	}
+	switch k := kk; {
+	case k >= 12: // year boundary: Dec 28 .. Jan 4 (ISO week-year differs from the calendar year), incl. 53-week ISO years
+		yb := []int{2015, 2016, 2020, 2021, 2026, 2027, 2009, 2010, 2024, 2025, year}[r.Intn(11)]
+		t = time.Date(yb, 12, 28+r.Intn(8), r.Intn(24), r.Intn(60), r.Intn(60), r.Intn(2)*r.Intn(1e9), loc)
+		if r.Chance(30) {
+			t = time.Date(yb, 12, 28+r.Intn(8), 0, 0, 0, 0, loc).Add(pick())
+		}
 	case k < 4: // around a zone transition (25h / 23h days)
 		tr := tzd.Transitions(loc, y0.Unix(), y0.Unix()+366*86400)
 		if len(tr) > 0 {
